@@ -1631,7 +1631,18 @@ class Exec:
         raise Unsupported('buf_set into non-bytes chunk')
 
     def buf_write_range(self, b, rng, src):
-        """b[rng].copy_from_slice(src) for a single Bytes destination chunk"""
+        """b[rng].copy_from_slice(src): concrete sub-range of a Bytes chunk, or a prefix b[..k] of any buffer"""
+        if rng.a is None and not (len(b.chunks) == 1 and isinstance(b.chunks[0], Bytes) and all(isinstance(c, Bytes) for c in src.chunks)):
+            k = self.tobv(rng.b).t if rng.b is not None else self.buf_len(b).t
+            total = self.buf_len(b).t
+            if not self.valid(z3.ULE(k, total)) and self.branch(z3.UGT(k, total)):
+                raise Panic('range end index out of range for slice')
+            sl = self.buf_len(src).t
+            if not self.valid(sl == k) and self.branch(sl != k):
+                raise Panic('copy_from_slice length mismatch')
+            rest = self.buf_slice(b, RangeV(BV(k, 64), None, False)) if not self.valid(k == total) else Buffer([])
+            b.chunks = list(src.chunks) + list(rest.chunks)
+            return
         a = self.concrete_index(rng.a, 1 << 20) if rng.a is not None else 0
         flat = []
         for c in src.chunks:
